@@ -34,6 +34,14 @@ pub struct VM {
     instructions: Vec<u8>,
     ip: usize,
     bp: u16,
+
+    /// The garbage collector that manages every heap-allocated object this VM created or adopted.
+    /// It lives as long as the VM does, so values stay valid from one run to the next (e.g. in the REPL)
+    /// and everything that is left is freed once the VM is dropped.
+    gc: GC,
+
+    /// The number of constants (from the start of the constant pool) that the collector manages already
+    adopted_constants: usize,
 }
 
 impl VM {
@@ -49,6 +57,8 @@ impl VM {
             instructions: Vec::new(),
             ip: 0,
             bp: 0,
+            gc: GC::new(),
+            adopted_constants: 0,
         }
     }
 
@@ -162,6 +172,14 @@ impl VM {
 
     /// Executes the given Bytecode inside the context of this VM
     pub fn run(&mut self, code: Bytecode) -> Result<Object, Error> {
+        // Take the collector out of the VM for the duration of the run, so it can be borrowed alongside the VM
+        let mut gc = std::mem::replace(&mut self.gc, GC::new());
+        let result = self.run_with_gc(code, &mut gc);
+        self.gc = gc;
+        result
+    }
+
+    fn run_with_gc(&mut self, code: Bytecode, gc: &mut GC) -> Result<Object, Error> {
         #[cfg(feature = "debug")]
         {
             println!("Bytecode (raw)= \n{:?}", &code.instructions);
@@ -184,14 +202,14 @@ impl VM {
         let constants = code.constants;
         let mut final_result = Object::null();
 
-        // Construct a new garbage collector
-        // And allow to manage memory for constants
-        let gc = &mut GC::new();
+        // Allow the garbage collector to manage memory for the constants it does not know yet
+        // (when a compiler is used for several runs its constant pool only ever grows)
         #[cfg(feature = "verif")]
         let _verif_exit_guard = VerifExitGuard(self as *const VM);
-        for c in &constants {
+        for c in constants.iter().skip(self.adopted_constants) {
             gc.maybe_trace(*c)
         }
+        self.adopted_constants = self.adopted_constants.max(constants.len());
 
         macro_rules! impl_binary_op_method {
             ($op:tt) => {{
